@@ -536,6 +536,10 @@ def cmp(op, a, b):
     if d.op == "const":
         x = d.args[0]
         return bconst({"<": x < 0, "<=": x <= 0, "==": x == 0, "!=": x != 0}[op])
+    if op == "!=":
+        return bnot(_mk("cmp", ("==", a, b), "B"))
+    if op == "==" and b.id < a.id:
+        a, b = b, a
     return _mk("cmp", (op, a, b), "B")
 
 
@@ -777,6 +781,39 @@ def evaluate(roots, env, ufs=None, exact=False):
 
 # derivative rules for uninterpreted functions: name -> callable(args, k) -> Term
 UF_DERIV = {}
+
+
+def _d_log(name, args, k):
+    return div(ONE, args[0])
+
+
+def _d_exp(name, args, k):
+    return uf("exp", args[0])
+
+
+def _d_sin(name, args, k):
+    return uf("cos", args[0])
+
+
+def _d_cos(name, args, k):
+    return neg(uf("sin", args[0]))
+
+
+def _d_tanh(name, args, k):
+    th = uf("tanh", args[0])
+    return sub(ONE, mul(th, th))
+
+
+def _d_tan(name, args, k):
+    tn = uf("tan", args[0])
+    return add(ONE, mul(tn, tn))
+
+
+def _d_arctan(name, args, k):
+    return div(ONE, add(ONE, mul(args[0], args[0])))
+
+
+UF_DERIV.update({"log": _d_log, "exp": _d_exp, "sin": _d_sin, "cos": _d_cos, "tanh": _d_tanh, "tan": _d_tan, "arctan": _d_arctan})
 
 
 def _uf_default_deriv(name, args, k):
